@@ -129,8 +129,9 @@ def run_job(job, workdir, vacuity=False, trace=True):
         cmd += job.checks
         if trace:
             cmd += ['--trace']
-    if job.unwind is not None:
-        cmd += ['--unwind', str(job.unwind), '--unwinding-assertions']
+    # a bound is always given so that a loop nobody wrote a contract for (e.g. one introduced by a change) ends in an unwinding
+    # assertion (-> undecided) instead of unwinding for ever
+    cmd += ['--unwind', str(job.unwind if job.unwind is not None else 130), '--unwinding-assertions']
     if job.solver:
         cmd += ['--sat-solver', job.solver]
     cmd += job.flags
